@@ -586,6 +586,25 @@ class Interp:
                 after.env[name] = ("rrepeat", rid, elem)
             else:
                 raise Unsupported(f"{self.func.qual}:{s.lineno}: list {name} receives {k} entries per iteration of a reading loop")
+        # what the summary does not model must not survive the loop with its entry value: a carried plain variable the body
+        # rebinds is unknown afterwards, and the calls the body makes stay on the record (marked by their position) so that
+        # call-counting / provenance rules of the clients see them
+        from .sym import Unknown
+
+        modelled = set(views) | set(offsets) | set(cloop.deltas) | set(cloop.appends) | set(loop.outer_lists)
+        for name in carried:
+            if name in modelled or name not in st.env:
+                continue
+            v0_, v1_ = st.env.get(name), chosen.env.get(name)
+            if v1_ is v0_:
+                continue
+            if isinstance(v0_, (int, str, bytes, bool, type(None))) and v1_ == v0_:
+                continue
+            after.env[name] = Unknown(f"{name} after the loop at line {s.lineno}")
+        seen_calls = {id(c) for c in after.calls}
+        for c in chosen.calls:
+            if id(c) not in seen_calls:
+                after.calls.append(c)
         res: t.List[t.Tuple[State, Outcome]] = [(after, Outcome("fall"))]
         for x, o in early:
             res.append((x, o))
